@@ -213,11 +213,37 @@ def presentations(doc):
             ("OrderedDict objects", json.loads(json.dumps(doc), object_pairs_hook=collections.OrderedDict))]
 
 
+TUPLE_KINDS = ["feature.children", "rule.children", "background.steps", "scenario.steps", "tags", "examples", "tableBody", "cells", "rows"]
+
+
+def tupled(x, kind, parent="", key=""):
+    """the same document with ONE kind of list being a tuple (frozen / constant parts of templated ASTs)"""
+    if isinstance(x, dict):
+        return {k: tupled(v, kind, key, k) for k, v in x.items()}
+    if isinstance(x, list):
+        y = [tupled(v, kind, parent, key) for v in x]
+        return tuple(y) if kind in (key, parent + "." + key) else y
+    return x
+
+
 def check_presentations(case, doc, what):
+    import collections
     plain = gh.Compiler(gh.IdGenerator()).compile(json.loads(json.dumps(doc)))
-    for label, pres in presentations(doc):
+
+    def hook(d):
+        x = collections.defaultdict(dict)
+        x.update(d)
+        return x
+    more = [("auto-vivifying dict subclass objects (defaultdict)", json.loads(json.dumps(doc), object_hook=hook), False)]
+    more += [("%s being a tuple" % k, tupled(json.loads(json.dumps(doc)), k), True) for k in TUPLE_KINDS]
+    for label, pres, may_refuse in [(l, p_, False) for l, p_ in presentations(doc)] + more:
         snap = json.dumps(pres)
-        got = gh.Compiler(gh.IdGenerator()).compile(pres)
+        try:
+            got = gh.Compiler(gh.IdGenerator()).compile(pres)
+        except (TypeError, AttributeError):
+            if not may_refuse:
+                raise
+            continue  # a presentation the compiler refuses loudly is outside the property; a silently different result is not
         if got != plain:
             for i, (x, y) in enumerate(zip(got, plain)):
                 if x != y:
